@@ -10,7 +10,8 @@ Wrapper state is arbitrary: any subset of the inspectors already errored, any
 expected_format, any iteration order of the inspector set (explored over all
 permutations of three inspectors, because Python set order is arbitrary).
 """
-from pyvc.api import (proof, load, blank, model, fresh_bool, fresh_int, fresh_str,
+from pyvc.api import (proof, load, blank, model, patch, fresh_bool, fresh_int,
+                      fresh_str,
                       pick,
                       assume,
                       check, cover, same, implies, conj, disj, neg)
@@ -78,12 +79,18 @@ def make_wrapper(M, names, order, source, expected):
 
 
 def blank_wrapper(M, fakes, order, source, expected, errored):
-    w = blank(M.InspectWrapper)
-    w._source = source
-    w._expected_format = expected
-    w._inspectors = set([fakes[i] for i in order])
-    w._errored_inspectors = set([f for f, e in zip(fakes, errored) if e])
-    w._finished = False
+    """A wrapper over the havoc inspectors, built by the REAL __init__ (so
+    that whatever __init__ sets up - today or after a refactoring - is set
+    up): the registry is replaced by one that hands out the prepared
+    inspectors, in the wanted set order."""
+    registry = {}
+    for i in order:
+        registry[fakes[i].NAME] = (lambda f=fakes[i]: f)
+    patch(M, 'ALL_FORMATS', registry)
+    w = M.InspectWrapper(source, expected)
+    for f, e in zip(fakes, errored):
+        if e:
+            w._errored_inspectors.add(f)
     return w
 
 
@@ -310,13 +317,8 @@ def close_without_close_method():
     Fake, Boom, fakes = make_wrapper(M, ['qcow2', 'raw'], None, None, None)
 
     class Bare:
-        pass
-    w = blank(M.InspectWrapper)
-    w._source = Bare()
-    w._expected_format = None
-    w._inspectors = set(fakes)
-    w._errored_inspectors = set()
-    w._finished = False
+        __absent__ = ('close',)
+    w = blank_wrapper(M, fakes, [0, 1], Bare(), None, [False, False])
     w.close()
     check('close/source-without-close-is-fine',
           w._finished and all([f.finish_calls == 1 for f in fakes]), 'C06')
@@ -337,13 +339,10 @@ def detection_decision_table():
     order = order + ([3] if with_raw else [])
     if with_raw and pick('raw_first', [False, True]):
         order = [3] + order[:3]
-    w = blank(M.InspectWrapper)
-    w._source = None
-    w._expected_format = None
-    w._inspectors = set([fakes[i] for i in order])
     # the decision must not depend on which inspectors have errored
     errored = pick('errored', [[], [0], [1, 2], [0, 1, 2]])
-    w._errored_inspectors = set([fakes[i] for i in errored])
+    w = blank_wrapper(M, fakes, order, None, None,
+                      [i in errored for i in range(len(fakes))])
     w._finished = fresh_bool('finished')
     for i in range(3):
         fakes[i].c = fresh_bool('complete%d' % i)
@@ -404,12 +403,8 @@ def decision_is_not_revised_by_reading_further():
     with_raw = pick('raw_allowed', [True, False])
     names = ['qcow2', 'vmdk', 'iso'] + (['raw'] if with_raw else [])
     Fake, Boom, fakes = make_wrapper(M, names, None, None, None)
-    w = blank(M.InspectWrapper)
-    w._source = None
-    w._expected_format = None
-    w._inspectors = set(fakes)
-    w._errored_inspectors = set()
-    w._finished = False
+    w = blank_wrapper(M, fakes, list(range(len(fakes))), None, None,
+                      [False] * len(fakes))
     for i in range(3):
         fakes[i].c = fresh_bool('complete%d' % i)
         fakes[i].m = fresh_bool('match%d' % i)
